@@ -82,7 +82,11 @@ def gen_program(seed, i):
     else:
         g = Gen(rng, rt_safe=True, features=('pr', 'send', 'rand'))
         g.single_clock = rng.choice([-1, 0])
-    g.tempos = [1, 1.5, 2, 3, 4, 8]
+    # exact arithmetic: dyadic deltas, power-of-two tempos and (in RT) a dyadic
+    # start time, so that equal logical times are bit-equal in both modes and
+    # ties are ordered by insertion in both (see vf/prog.py DYADIC_DELTAS)
+    g.dyadic = True
+    g.tempos = [1, 2, 4, 8]
     prog = g.program()
     prog['family'] = ['multi-clock', 'single-clock-tempo-cond', 'single-clock-pause-resume'][fam]
     return prog
@@ -176,8 +180,9 @@ def run_rt(spec, acc):
             for i in batch:
                 prog = gen_program(spec['seed'], i)
                 runs.append((i, Run(prog, 'rt', tag=i % 20000), prog))
+            at = (int(main.elapsed_time() * 1024) + 80) / 1024.0
             for _, r, _ in runs:
-                r.start()
+                r.start(at=at)
             # wait for quiescence: all programs done or every clock queue empty
             t0 = time.time()
             quiet = False
